@@ -1,3 +1,5 @@
+//go:build !norecorder
+
 package main
 
 import (
